@@ -69,6 +69,16 @@ def check_case(ctx, cs):
             pts = obj.evalpts
             if not (close_seq(pts[0], obj.ctrlpts[0]) and close_seq(pts[-1], obj.ctrlpts[-1])):
                 ctx.violate("evalpts", tg + ["clamped_ends"], small, {"first": pts[0], "last": pts[-1]})
+        # the same curve in a very small and a very large unit: the bounds scale with it
+        for s_ in (2.0 ** -30, 2.0 ** 30):
+            def scaled_len():
+                ob = build(sh)
+                operations.scale(ob, s_, inplace=True)
+                ob.sample_size = 23
+                return operations.length_curve(ob)
+            ok, L = _try(ctx, "operations.length_curve", tg + ["scaled"], small, scaled_len)
+            if ok and not (chord - 1e-9 <= L / s_ <= poly + 1e-9):
+                ctx.violate("operations.length_curve", tg + ["scaled"], small, {"scale": s_, "chord": chord * s_, "length": L, "polygon": poly * s_})
         # the control points are replaced AFTER the curve has been sampled: sampled points, ends and length follow the new polygon
         def moved():
             ob = build(sh)
